@@ -137,12 +137,12 @@ func PrimitiveTypeFromJSONSchemaType(
 
 			if removeMin {
 				*minimum = nil
-				*exclusiveMaximum = nil
+				*exclusiveMinimum = nil
 			}
 
 			if removeMax {
 				*maximum = nil
-				*exclusiveMinimum = nil
+				*exclusiveMaximum = nil
 			}
 		}
 
@@ -179,11 +179,13 @@ func getMinIntType(
 	)
 
 	if nExclusiveMin && nMin != nil {
-		*nMin += 1.0
+		v := *nMin + 1.0
+		nMin = &v
 	}
 
 	if nExclusiveMax && nMax != nil {
-		*nMax -= 1.0
+		v := *nMax - 1.0
+		nMax = &v
 	}
 
 	if nMin != nil && *nMin >= 0 {
